@@ -36,6 +36,12 @@ CHECKS["C08"] = ("fault_enumeration", "generated scoped_iter block programs vs a
 CHECKS["C09"] = ("exploration", "schedule-driven PBT on a harness-owned event loop: generated configurations x generated schedules; exhaustive schedule enumeration for small configurations",
   "Each tee child runs in its own task; the schedule (which ready task advances) is Hypothesis data; invariants on order, exactly-once fetching, no overlapping source access under a lock, no deadlock, weak-reference retention and 'source closed iff all children done' are checked after EVERY scheduler step; early closes from j=0 and one cancellation at any suspension are generated; all schedules of the 2-children configurations are enumerated in quick, 3-children in thorough.",
   "cooperative tasks only; granularity = suspension points of user awaitables (complete for this library, see C17)", "4/C09")
+CHECKS["C10"] = ("exploration", "model-based history PBT vs functools.lru_cache and an explicit LRU model (for cache_discard)",
+  "Generated call/clear/info/discard histories (<= 40 operations) per configuration (maxsize incl. None/negative/0/default, typed, bare decorator, cache(), function/method/classmethod/staticmethod on two instances) are mirrored on functools.lru_cache; results, exception types, invocation log, cache_info and cache_parameters must agree after every operation; a small LRU model, itself cross-checked against functools on every discard-free prefix, is the oracle after cache_discard.",
+  "functools._make_key defines pattern identity; sequential awaits only", "4/C10")
+CHECKS["C16"] = ("exploration", "model-based history PBT vs itertools.groupby (advance groupby / advance any previously returned group)",
+  "Generated items (equal-yet-distinguishable keys), key absent/sync/async, four source flavours and histories of up to 15 advance operations on the groupby and on any previously returned group handle are mirrored on itertools.groupby; key, item identity or stop must agree after every operation.",
+  "reflexive key equality; CPython 3.12 itertools.groupby is the oracle", "4/C16")
 REASONS = {}
 props = [json.loads(l)["id"] for l in open(os.path.join(HERE, "properties.jsonl"))]
 checks = []
